@@ -301,3 +301,8 @@ def _other_arm(body, sw, cen_t):
     if tgt != cen_t:
       return tgt
   return -1
+
+
+# sensitivity pack (thorough tier): each seeded edit must be reported by the named rule instance
+MUTANTS = [{'name': 'seeded-C11-a', 'patch': 'C11-a/patch.diff', 'expect': ('R11.3', 'create_rune_entry', 'RUNE_TO_RUNE_ID')},
+           {'name': 'seeded-C11-b', 'patch': 'C11-b/patch.diff', 'expect': ('R11.2', 'tx_commits_to_rune', 'is_p2tr')}]
